@@ -268,12 +268,12 @@ class Check:
                 m = re.findall(r'File "\./([^"]+)", line (\d+)[^\n]*\n((?:.*\n){0,6})', log)
                 where = ['%s:%s %s' % (a, b, ' '.join(c.split())[:300]) for a, b, c in m][-3:]
                 self.broken.append('coq build failed: ' + ' | '.join(where or [log[-400:]]))
+            if not ok:
+                # build whatever still builds, then ask make which targets are really up to date
+                sh(['make', '-j16', '-k'] + list(targets), cwd=COQ, timeout=3000)
             for t in targets:
-                vo = os.path.join(COQ, t)
-                built = os.path.exists(vo) and ok
+                built = ok or sh(['make', '-q', t], cwd=COQ, timeout=600)[0] == 0
                 self.obligations.append({'name': t, 'kind': 'coq-file', 'ok': built})
-                if ok is False and not os.path.exists(vo) and not any(t in b for b in self.broken):
-                    self.broken.append('not built: ' + t)
             plist = [props] if isinstance(props, str) else list(props or [])
             for pf in plist:
                 pok, thms, plog, missing = props_compile(pf)
@@ -282,7 +282,11 @@ class Check:
                 for th in thms:
                     axs = th['axioms']
                     good = pok and axs is not None and all(a.split('.')[-1] in {x.split('.')[-1] for x in STD_AXIOMS_ALLOWED} for a in axs)
-                    self.obligations.append({'name': th['name'], 'kind': 'theorem', 'ok': good, 'axioms': axs})
+                    stale = good and not ok and sh(['make', '-q', 'Props/%s.vo' % pf], cwd=COQ, timeout=600)[0] != 0
+                    if stale:
+                        good = False   # compiled against stale .vo files of a dependency that no longer builds
+                    self.obligations.append({'name': th['name'], 'kind': 'theorem', 'ok': good, 'axioms': axs,
+                                             **({'detail': 'not re-checked: a dependency failed to build in this run'} if stale else {})})
                     if pok and not good:
                         self.broken.append('theorem %s depends on unexpected axioms %s' % (th['name'], axs))
                 for n in missing:
